@@ -132,6 +132,7 @@ func runSched(r *rand.Rand, dir string, n int) {
 			pol = sched.NewPCT(rand.New(rand.NewSource(r.Int63())), 3, 30)
 		}
 		s := sched.New(pol, map[string]sched.Kind{})
+		s.StoreSteps = true
 		tmps := map[string]int{}
 		var snaps = map[int][]J{}
 		s.OnEvent = func(e sched.Event) []sched.Event {
